@@ -104,17 +104,28 @@ check("C15", "model_checking",
       "seq_join / seq_try_join_all / parallel_join polled by a waker-tracking executor; the explorer enumerates every order of "
       "{poll the consumer, complete started task j} for n<=6 tasks, window 1..4, every single in-window dependency (task a "
       "completes only after task b's future resolved), every error position, and <=2 source-Pending deviations. "
-      "states = executions (distinct choice sequences); transitions = choice points.",
+      "states = executions (distinct choice sequences); transitions = choice points. Multi-threaded implementation (config B2): "
+      "seq_join / seq_try_join_all / parallel_join with n <= 4 (5) items spawned as real tasks, window 1..4, every single in-window "
+      "dependency in both directions, yields, error at the last item or with window 1, every schedule within the preemption bound.",
       [{"name": "seqjoin", "config": "A", "test": "verif::c15::run",
-        "require": {"any": {"max_distinct_completion_orders": 20, "window_checks": 100}}}],
-      assumptions=["single-threaded seq_join/local.rs only in this part (multi_thread.rs needs the multi-threading feature)"],
-      exhaustive=True, engine="E1 choice",
+        "require": {"any": {"max_distinct_completion_orders": 20, "window_checks": 100}}},
+       {"name": "multi-thread", "config": "B2", "test": "verif::c15s::run", "workers": {"quick": 16, "thorough": 16},
+        "timeout": {"quick": 900, "thorough": 7200},
+        "require": {"any": {"mt_schedules": 100000, "max_distinct_completion_orders_mt": 6}}}],
+      assumptions=["the single-threaded implementation (seq_join/local.rs) is explored with the choice-tree explorer, the multi-threaded one "
+                   "(seq_join/multi_thread.rs, feature multi-threading) with the preemption-bounded scheduler under shuttle (SeqCst atomics)",
+                   "multi-threaded early termination with other items still in flight cancels them through a panicking cancellation handler; "
+                   "tokio contains that panic in the JoinHandle, shuttle reports every task panic as a failed execution, so errors are "
+                   "placed only where nothing else can be in flight (window 1 or last item) in the multi-threaded arm"],
+      exhaustive=True, engine="E1 choice + E2 sched",
       technique="stateless exhaustive choice-tree exploration (DFS by re-execution, deviation-bounded) of the real stream "
-                "combinators on a waker-tracking executor with deadlock detection",
+                "combinators on a waker-tracking executor with deadlock detection; preemption-bounded exhaustive schedule "
+                "exploration of the multi-threaded implementation (one real task per item) under shuttle",
       text="All completion orders the window permits and all single in-window dependencies are executed against the real "
            "SequentialFutures; order of results, exactly-once, window occupancy at every Pending return, polling of every "
            "in-flight task and termination after the first error are checked on every execution.",
-      note="Bounds: n <= 6 (7), w <= 4 (5), one dependency edge, source Pending deviations <= 2.")
+      note="Bounds: n <= 6 (7), w <= 4 (5), one dependency edge, source Pending deviations <= 2; multi-threaded: n <= 4 (5), "
+           "preemption bound 3 (n <= 2), 2 (n = 3), 1 (n = 4).")
 
 check("C16", "model_checking",
       "Batcher (records_per_batch 1..4, total 1..6): the explorer enumerates every interleaving of {record i requests validation "
